@@ -2,6 +2,14 @@ package main
 
 // Property definitions: which obligations make up each property (DESIGN.md section 5).
 var propDefs = map[string]*PropDef{
+	"C03": {
+		ID: "C03", Kinds: []string{"monotone", "writers"}, Funcs: "all", Floor: 25,
+		Unmech: []string{
+			"'for all call histories' follows from the per-method contracts of BanTag/BanFilter/From*/Render* by induction over the history",
+			"'no route' follows because every tag is entered through parseTagElement (TagParser protocol precondition) and every filter of an expression through parseVariableOrLiteralWithFilter (chain invariant) or the filter tag",
+		},
+		Assume: []string{"ReplaceTag/ReplaceFilter/RegisterTag are not called between compilation steps (registry is fixed)"},
+	},
 	"C04": {
 		ID: "C04", Kinds: []string{"frame"}, Funcs: "exec", Floor: 100,
 		Unmech: []string{
